@@ -4,6 +4,13 @@
 // the providers' and the store's mutexes are hooked as well (instrumented build). All schedules up
 // to the preemption bound are executed; every execution is judged step by step on the exact log of
 // storage calls.
+//
+// The store can FAIL: every remote operation a managed thread performs (CreateObject, the writer's
+// Write and Close, ReadObject, ReadAt, List, Delete, Size) asks the environment (vsched.Choose)
+// whether it fails; the explorer enumerates a failure at every position (one per execution, two in
+// the thorough tier for the small shapes) combined with the schedules. A failed call has no effect
+// on the store (a failed writer Close does NOT finalize the object); in the thorough tier Delete and
+// writer Close can also fail AFTER having taken effect (lost acknowledgement).
 package c41
 
 import (
@@ -16,6 +23,7 @@ import (
 	"strings"
 	"testing"
 
+	"github.com/cockroachdb/errors"
 	"github.com/cockroachdb/pebble/internal/base"
 	"github.com/cockroachdb/pebble/internal/verif/d1x"
 	"github.com/cockroachdb/pebble/internal/verif/vlib"
@@ -28,7 +36,8 @@ import (
 
 // ------------------------------------------------------------------------------------------------
 // The shared store: remote.NewInMem() behind a wrapper that (a) makes every call a scheduling
-// point and (b) appends every call with its result to one event log.
+// point, (b) lets the environment fail it and (c) appends every call with its result to one event
+// log.
 //
 // The log order is the real order of the operations: the vsync shims park BEFORE performing an
 // operation, so after the inner store released its mutex the calling thread runs without
@@ -36,11 +45,12 @@ import (
 // log against a shadow map (class harness-log-inconsistent).
 
 type event struct {
-	Prov int    // 0-based provider index; -1: harness
-	Op   string // create, put (writer close: the object appears), delete, size, open, readat, list | attach-ret, remove-call, remove-ret, read-ret
+	Prov int    // 0-based provider index
+	Op   string // storage calls: create (CreateObject), write, put (writer Close: the object appears), delete, size, open, readat, list | harness: <op>-call / <op>-ret for op in create attach remove cleanup read
 	Name string
 	OK   bool // the call returned no error
 	N    int  // list: number of results
+	Inj  int  // storage calls: 0 real answer; 1 injected failure, the call had no effect; 2 injected failure reported AFTER the call took effect
 }
 
 func (e event) String() string {
@@ -48,10 +58,14 @@ func (e event) String() string {
 	if e.Name != "" {
 		s += " " + e.Name
 	}
-	switch e.Op {
-	case "list":
+	switch {
+	case e.Inj == 1:
+		return s + " -> INJECTED-ERR"
+	case e.Inj == 2:
+		return s + " -> done+INJECTED-ERR"
+	case e.Op == "list":
 		return s + fmt.Sprintf(" -> %d", e.N)
-	case "remove-call":
+	case strings.HasSuffix(e.Op, "-call"):
 		return s
 	}
 	if e.OK {
@@ -60,9 +74,15 @@ func (e event) String() string {
 	return s + " -> err"
 }
 
+var errInjected = errors.New("c41: injected remote storage failure")
+
 type core struct {
 	inner remote.Storage
 	log   []event
+	// faults: the environment may fail storage calls of managed threads; ambig: Delete and writer
+	// Close have a second failure mode (effect applied, failure reported).
+	faults, ambig bool
+	injBy         []int // number of injected failures seen by provider i so far
 	// Storage-level mode (gated): a scheduling decision is taken only when every unfinished thread
 	// is parked at a storage call. While one thread is "in flight" (between two of its storage
 	// calls) the storage points of the others are disabled, so its mutex/atomic points are forced
@@ -71,6 +91,7 @@ type core struct {
 	// code between two storage calls of a provider touches only that provider's state (one thread
 	// per provider; the store is the only shared object).
 	gated    bool
+	solo     bool // prologue: one managed thread exists, every point is a forced move
 	nthreads int
 	started  int // threads that reached the gate
 	passed   int // threads that passed the gate
@@ -93,7 +114,7 @@ func (c *core) point(prov int, kind string) {
 	if t == nil {
 		return
 	}
-	if c.gated {
+	if c.gated && !c.solo {
 		c.inflight = -1
 		t.Point(&vsched.Op{Kind: kind, Yield: true, Enabled: func() bool { return c.inflight < 0 && c.passed == c.nthreads }})
 		c.inflight = prov
@@ -132,6 +153,25 @@ func (c *core) local(prov int, kind string) {
 	observe(t, kind)
 }
 
+// inject asks the environment whether the storage call the calling thread is about to make fails:
+// 0 no; 1 it fails without effect; 2 (modes == 3 only) it takes effect and reports failure. Only
+// managed threads are asked (Setup and Teardown never see a failure). The explorer bounds the number
+// of non-default answers per execution (d1x QuickEnv/ThoroughEnv), so the question is asked at
+// every call: the decision sequence of an execution does not depend on the tier.
+func (c *core) inject(prov int, kind string, modes int) int {
+	if !c.faults || vsched.Cur() == nil {
+		return 0
+	}
+	if !c.ambig {
+		modes = 2
+	}
+	a := vsched.Choose(modes, "fail "+kind)
+	if a != 0 {
+		c.injBy[prov]++
+	}
+	return a
+}
+
 // pstore is provider prov's view of the shared store.
 type pstore struct {
 	c    *core
@@ -140,16 +180,20 @@ type pstore struct {
 
 var _ remote.Storage = (*pstore)(nil)
 
-func (s *pstore) ev(op, name string, ok bool, n int) {
-	s.c.log = append(s.c.log, event{Prov: s.prov, Op: op, Name: name, OK: ok, N: n})
+func (s *pstore) ev(op, name string, ok bool, n, inj int) {
+	s.c.log = append(s.c.log, event{Prov: s.prov, Op: op, Name: name, OK: ok, N: n, Inj: inj})
 }
 
 func (s *pstore) Close() error { return nil }
 
 func (s *pstore) ReadObject(ctx context.Context, name string) (remote.ObjectReader, int64, error) {
 	s.c.point(s.prov, "remote.ReadObject "+name)
+	if s.c.inject(s.prov, "ReadObject "+name, 2) != 0 {
+		s.ev("open", name, false, 0, 1)
+		return nil, 0, errInjected
+	}
 	r, sz, err := s.c.inner.ReadObject(ctx, name)
-	s.ev("open", name, err == nil, 0)
+	s.ev("open", name, err == nil, 0, 0)
 	if err != nil {
 		return nil, 0, err
 	}
@@ -164,18 +208,26 @@ type preader struct {
 
 func (r *preader) ReadAt(ctx context.Context, p []byte, off int64) error {
 	r.s.c.point(r.s.prov, "remote.ReadAt "+r.name)
+	if r.s.c.inject(r.s.prov, "ReadAt "+r.name, 2) != 0 {
+		r.s.ev("readat", r.name, false, 0, 1)
+		return errInjected
+	}
 	err := r.r.ReadAt(ctx, p, off)
-	r.s.ev("readat", r.name, err == nil, 0)
+	r.s.ev("readat", r.name, err == nil, 0, 0)
 	return err
 }
 
-// Close of a reader is local (no storage access): not a scheduling point.
+// Close of a reader is local (no storage access): not a scheduling point, cannot fail.
 func (r *preader) Close() error { return r.r.Close() }
 
 func (s *pstore) CreateObject(name string) (io.WriteCloser, error) {
 	s.c.local(s.prov, "remote.CreateObject "+name)
+	if s.c.inject(s.prov, "CreateObject "+name, 2) != 0 {
+		s.ev("create", name, false, 0, 1)
+		return nil, errInjected
+	}
 	w, err := s.c.inner.CreateObject(name)
-	s.ev("create", name, err == nil, 0)
+	s.ev("create", name, err == nil, 0, 0)
 	if err != nil {
 		return nil, err
 	}
@@ -183,47 +235,91 @@ func (s *pstore) CreateObject(name string) (io.WriteCloser, error) {
 }
 
 type pwriter struct {
-	s    *pstore
-	name string
-	w    io.WriteCloser
+	s      *pstore
+	name   string
+	w      io.WriteCloser
+	closed bool
 }
 
 func (w *pwriter) Write(p []byte) (int, error) {
 	w.s.c.local(w.s.prov, "remote.Write "+w.name)
-	return w.w.Write(p)
+	if w.s.c.inject(w.s.prov, "Write "+w.name, 2) != 0 {
+		w.s.ev("write", w.name, false, 0, 1)
+		return 0, errInjected
+	}
+	n, err := w.w.Write(p)
+	w.s.ev("write", w.name, err == nil, 0, 0)
+	return n, err
 }
 
-// Close is where the object becomes visible in the store.
+// Close is where the object becomes visible in the store. A failed Close (answer 1) does not
+// finalize the upload: the object does not come into existence, and the writer is spent (a second
+// Close, e.g. from an Abort path, is a no-op as for the in-memory writer).
 func (w *pwriter) Close() error {
+	if w.closed {
+		return nil
+	}
+	w.closed = true
 	w.s.c.point(w.s.prov, "remote.CloseWriter "+w.name)
+	switch w.s.c.inject(w.s.prov, "CloseWriter "+w.name, 3) {
+	case 1:
+		w.s.ev("put", w.name, false, 0, 1)
+		return errInjected
+	case 2:
+		if err := w.w.Close(); err != nil {
+			panic(err)
+		}
+		w.s.ev("put", w.name, false, 0, 2)
+		return errInjected
+	}
 	err := w.w.Close()
-	w.s.ev("put", w.name, err == nil, 0)
+	w.s.ev("put", w.name, err == nil, 0, 0)
 	return err
 }
 
 func (s *pstore) List(prefix, delimiter string) ([]string, error) {
 	s.c.point(s.prov, "remote.List "+prefix)
+	if s.c.inject(s.prov, "List "+prefix, 2) != 0 {
+		s.ev("list", prefix, false, 0, 1)
+		return nil, errInjected
+	}
 	res, err := s.c.inner.List(prefix, delimiter)
-	s.ev("list", prefix, err == nil, len(res))
+	s.ev("list", prefix, err == nil, len(res), 0)
 	return res, err
 }
 
 func (s *pstore) Delete(name string) error {
 	s.c.point(s.prov, "remote.Delete "+name)
+	switch s.c.inject(s.prov, "Delete "+name, 3) {
+	case 1:
+		s.ev("delete", name, false, 0, 1)
+		return errInjected
+	case 2:
+		if err := s.c.inner.Delete(name); err != nil {
+			panic(err)
+		}
+		s.ev("delete", name, false, 0, 2)
+		return errInjected
+	}
 	err := s.c.inner.Delete(name)
-	s.ev("delete", name, err == nil, 0)
+	s.ev("delete", name, err == nil, 0, 0)
 	return err
 }
 
 func (s *pstore) Size(name string) (int64, error) {
 	s.c.point(s.prov, "remote.Size "+name)
+	if s.c.inject(s.prov, "Size "+name, 2) != 0 {
+		s.ev("size", name, false, 0, 1)
+		return 0, errInjected
+	}
 	n, err := s.c.inner.Size(name)
-	s.ev("size", name, err == nil, 0)
+	s.ev("size", name, err == nil, 0, 0)
 	return n, err
 }
 
 // IsNotExistError classifies an error value locally (no storage access, in every remote.Storage
-// implementation): it commutes with everything and is not a scheduling point.
+// implementation): it commutes with everything, is not a scheduling point and cannot fail. An
+// injected failure is NOT a not-exist error (the store did not say the object is missing).
 func (s *pstore) IsNotExistError(err error) bool { return s.c.inner.IsNotExistError(err) }
 
 // ------------------------------------------------------------------------------------------------
@@ -236,9 +332,14 @@ type step struct {
 type scen struct {
 	name    string
 	nprov   int
-	pre     []int    // providers (besides the creator P1) that attach in Setup, each from P1's backing
+	pre     []int    // providers (besides the creator P1) that attach before the threads race, each from P1's backing
 	gated   bool     // storage-level mode: decisions only at storage calls, all interleavings at bound 0
 	threads [][]step // threads[i] runs on provider i
+	// faults: the store may fail. Then the object is created and the pre-attaches are made by the
+	// first managed thread (a sequential prologue, so that the creation's and the sequential attaches'
+	// storage calls can fail too) instead of by Setup, and a failed operation is retried once.
+	faults bool
+	ambig  bool // Delete / writer Close may also fail after taking effect
 }
 
 const objFileNum = base.DiskFileNum(1)
@@ -251,12 +352,12 @@ func fileNumOf(prov int) base.DiskFileNum {
 }
 
 type result struct {
-	Attached  bool // AttachRemoteObjects was called
-	AttachErr error
-	ReadDone  bool
-	ReadErr   string
-	Removed   bool // Remove was called
-	RemoveErr error
+	CreateErr  error
+	Created    bool    // Create+Write+Finish was attempted
+	AttachErrs []error // one entry per AttachRemoteObjects call
+	ReadErrs   []string
+	RemoveErrs []error
+	Done       bool // the provider's thread ran to its end
 }
 
 type h struct {
@@ -267,9 +368,10 @@ type h struct {
 	stores   []*pstore
 	backing  []objstorage.RemoteObjectBacking // backing produced by provider i (handle already closed)
 	data     []byte
-	objName  string
 	setupLen int // log entries written by Setup
 	res      []result
+	// prologue (fault scenarios): "" = completed, else what stopped it
+	prologueStop string
 	// filled by Teardown
 	final     []string
 	finalRead map[int]string // provider -> "" (identical bytes) or the failure
@@ -320,6 +422,22 @@ func (s *h) attach(i, from int) error {
 	return err
 }
 
+// create makes P1 create the shared object: Create, one Write, Finish (Abort after a failed Write,
+// as the Writable contract demands).
+func (s *h) create() error {
+	w, _, err := s.provs[0].Create(context.Background(), base.FileTypeTable, objFileNum, objstorage.CreateOptions{
+		PreferSharedStorage: true, SharedCleanupMethod: objstorage.SharedRefTracking,
+	})
+	if err != nil {
+		return err
+	}
+	if err := w.Write(append([]byte(nil), s.data...)); err != nil {
+		w.Abort()
+		return err
+	}
+	return w.Finish()
+}
+
 // readBack reads the whole object through provider i; "" means byte-identical.
 func (s *h) readBack(i int) string {
 	ctx := context.Background()
@@ -342,7 +460,7 @@ func (s *h) readBack(i int) string {
 }
 
 func (s *h) Setup() {
-	s.core = &core{inner: remote.NewInMem(), gated: s.sc.gated, inflight: -1}
+	s.core = &core{inner: remote.NewInMem(), gated: s.sc.gated, inflight: -1, faults: s.sc.faults, ambig: s.sc.ambig, injBy: make([]int, s.sc.nprov)}
 	for _, st := range s.sc.threads {
 		if len(st) > 0 {
 			s.core.nthreads++
@@ -357,14 +475,10 @@ func (s *h) Setup() {
 	for i := 0; i < s.sc.nprov; i++ {
 		s.provs = append(s.provs, s.open(i))
 	}
-	w, meta, err := s.provs[0].Create(context.Background(), base.FileTypeTable, objFileNum, objstorage.CreateOptions{
-		PreferSharedStorage: true, SharedCleanupMethod: objstorage.SharedRefTracking,
-	})
-	must(err)
-	must(w.Write(s.data))
-	must(w.Finish())
-	_ = meta
-	s.objName = s.core.log[0].Name
+	if s.sc.faults {
+		return // the object is created by the prologue of the first managed thread
+	}
+	must(s.create())
 	s.saveBacking(0)
 	for _, i := range s.sc.pre {
 		must(s.attach(i, 0))
@@ -377,39 +491,102 @@ func (s *h) tev(i int, op string, ok bool) {
 	s.core.log = append(s.core.log, event{Prov: i, Op: op, OK: ok})
 }
 
+// prologue runs on the first managed thread before the other threads exist (fault scenarios): P1
+// creates the object, the pre-attachers attach one after the other. Every storage call can fail;
+// nothing is retried here (a retried prologue would only reach the fault-free state again). A
+// failed creation is followed by Remove, as the Writable contract asks of the caller. Returns
+// false if the racing part cannot start.
+func (s *h) prologue() bool {
+	s.core.solo = true
+	defer func() { s.core.solo = false }()
+	r := &s.res[0]
+	r.Created = true
+	s.tev(0, "create-call", true)
+	r.CreateErr = s.create()
+	s.tev(0, "create-ret", r.CreateErr == nil)
+	if r.CreateErr != nil {
+		s.tev(0, "cleanup-call", true)
+		err := s.provs[0].Remove(base.FileTypeTable, objFileNum)
+		s.tev(0, "cleanup-ret", err == nil)
+		s.prologueStop = "create-failed"
+		return false
+	}
+	s.saveBacking(0)
+	for _, i := range s.sc.pre {
+		s.tev(i, "attach-call", true)
+		err := s.attach(i, 0)
+		s.res[i].AttachErrs = append(s.res[i].AttachErrs, err)
+		s.tev(i, "attach-ret", err == nil)
+		if err != nil {
+			s.prologueStop = fmt.Sprintf("pre-attach-P%d-failed", i+1)
+			return false
+		}
+		s.saveBacking(i)
+	}
+	return true
+}
+
+func (s *h) body(i int, steps []step) func() {
+	return func() {
+		r := &s.res[i]
+		defer func() { s.core.inflight = -1 }()
+		s.core.gate(i)
+		// An operation that failed after the store failed one of its calls is retried once (the
+		// caller cannot tell a transient failure from a refusal otherwise; a Remove is documented as
+		// retryable). A failure without an injected fault is final.
+		retry := func(f func() bool) bool {
+			before := s.core.injBy[i]
+			if f() {
+				return true
+			}
+			if !s.sc.faults || s.core.injBy[i] == before {
+				return false
+			}
+			return f()
+		}
+		for _, st := range steps {
+			switch st.op {
+			case "attach":
+				ok := retry(func() bool {
+					s.tev(i, "attach-call", true)
+					err := s.attach(i, st.from)
+					r.AttachErrs = append(r.AttachErrs, err)
+					s.tev(i, "attach-ret", err == nil)
+					return err == nil
+				})
+				if !ok {
+					r.Done = true
+					return // the provider does not know the object: nothing to read or remove
+				}
+			case "read":
+				retry(func() bool {
+					s.tev(i, "read-call", true)
+					msg := s.readBack(i)
+					r.ReadErrs = append(r.ReadErrs, msg)
+					s.tev(i, "read-ret", msg == "")
+					return msg == ""
+				})
+			case "remove":
+				retry(func() bool {
+					s.tev(i, "remove-call", true)
+					err := s.provs[i].Remove(base.FileTypeTable, fileNumOf(i))
+					r.RemoveErrs = append(r.RemoveErrs, err)
+					s.tev(i, "remove-ret", err == nil)
+					return err == nil
+				})
+			}
+		}
+		r.Done = true
+	}
+}
+
 func (s *h) Threads() []func() {
 	var fs []func()
 	for i := range s.sc.threads {
-		i := i
-		steps := s.sc.threads[i]
-		if len(steps) == 0 {
+		if len(s.sc.threads[i]) == 0 {
 			continue
 		}
-		fs = append(fs, func() {
-			r := &s.res[i]
-			defer func() { s.core.inflight = -1 }()
-			s.core.gate(i)
-			for _, st := range steps {
-				switch st.op {
-				case "attach":
-					r.Attached = true
-					r.AttachErr = s.attach(i, st.from)
-					s.tev(i, "attach-ret", r.AttachErr == nil)
-					if r.AttachErr != nil {
-						return // the provider does not know the object: nothing to read or remove
-					}
-				case "read":
-					r.ReadErr = s.readBack(i)
-					r.ReadDone = true
-					s.tev(i, "read-ret", r.ReadErr == "")
-				case "remove":
-					r.Removed = true
-					s.tev(i, "remove-call", true)
-					r.RemoveErr = s.provs[i].Remove(base.FileTypeTable, fileNumOf(i))
-					s.tev(i, "remove-ret", r.RemoveErr == nil)
-				}
-			}
-		})
+		fs = append(fs, s.body(i, s.sc.threads[i]))
 	}
 	if s.sc.gated {
 		// Storage-level mode: the threads are spawned as a chain (thread i starts thread i+1 as its
@@ -418,6 +595,9 @@ func (s *h) Threads() []func() {
 		var chain func(i int) func()
 		chain = func(i int) func() {
 			return func() {
+				if i == 0 && s.sc.faults && !s.prologue() {
+					return
+				}
 				if i+1 < len(fs) {
 					vsched.Go(chain(i + 1))
 				}
@@ -426,6 +606,18 @@ func (s *h) Threads() []func() {
 		}
 		return []func(){chain(0)}
 	}
+	if s.sc.faults {
+		// full mode with faults: the first thread runs the prologue and then starts the others
+		return []func(){func() {
+			if !s.prologue() {
+				return
+			}
+			for _, f := range fs[1:] {
+				vsched.Go(f)
+			}
+			fs[0]()
+		}}
+	}
 	return fs
 }
 
@@ -433,6 +625,7 @@ func (s *h) Teardown(deadlocked bool) {
 	if deadlocked {
 		return
 	}
+	// unmanaged from here on: the store answers truthfully
 	s.final, _ = s.core.inner.List("", "")
 	sort.Strings(s.final)
 	s.finalRead = map[int]string{}
@@ -453,34 +646,56 @@ func (s *h) Teardown(deadlocked bool) {
 	s.torn = true
 }
 
-func (s *h) refName(i int) string {
-	return fmt.Sprintf("%s.ref.%d.%06d", s.objName, i+1, uint64(fileNumOf(i)))
+// objName is the name of the shared object in the store: the first object a provider created.
+func (s *h) objName() string {
+	for _, e := range s.core.log {
+		if e.Op == "create" {
+			return e.Name
+		}
+	}
+	return ""
+}
+
+func refNameOf(obj string, i int) string {
+	return fmt.Sprintf("%s.ref.%d.%06d", obj, i+1, uint64(fileNumOf(i)))
 }
 
 // interleaving renders the calls with an effect on or a view of the shared store (everything but
-// CreateObject and the harness's own events) made by the threads: two executions with the same
-// interleaving differ only in the order of provider-local steps.
+// successful CreateObject/Write and the harness's own events) made by the threads: two executions
+// with the same interleaving differ only in the order of provider-local steps.
 func (s *h) interleaving() string {
 	var b strings.Builder
+	obj := s.objName()
 	for _, e := range s.core.log[s.setupLen:] {
 		switch e.Op {
 		case "put", "delete", "size", "open", "readat", "list":
-			b.WriteString(strings.ReplaceAll(e.String(), s.objName, "O"))
-			b.WriteString("; ")
+		case "create", "write":
+			if e.Inj == 0 {
+				continue
+			}
+		default:
+			continue
 		}
+		b.WriteString(strings.ReplaceAll(e.String(), obj, "O"))
+		b.WriteString("; ")
 	}
 	return b.String()
 }
 
 func (s *h) renderLog() string {
 	var b strings.Builder
+	obj := s.objName()
 	for k, e := range s.core.log {
-		if k == s.setupLen {
+		if k == s.setupLen && k > 0 {
 			b.WriteString(" || ")
 		} else if k > 0 {
 			b.WriteString("; ")
 		}
-		b.WriteString(strings.ReplaceAll(e.String(), s.objName, "O"))
+		if obj != "" {
+			b.WriteString(strings.ReplaceAll(e.String(), obj, "O"))
+		} else {
+			b.WriteString(e.String())
+		}
 	}
 	return b.String()
 }
@@ -488,11 +703,29 @@ func (s *h) renderLog() string {
 // ctx lets judge count the distinct storage-call logs (c.State).
 var ctx *vlib.Ctx
 
+func isOriginMarkerRefusal(err error) bool {
+	return base.IsCorruptionError(err) && strings.Contains(err.Error(), "origin marker object")
+}
+
+// judge is the oracle. A provider HOLDS a reference from the moment its creation
+// (Create+Write+Finish) or its AttachRemoteObjects reported success until its Remove reaches its
+// first storage call. Demanded in every execution, with or without failures of the store:
+//   - while a holder exists the object exists (deleted-while-referenced);
+//   - a creation / an attach reports success only while the object and the provider's own marker
+//     exist (otherwise nothing protects the reference it reported);
+//   - a holder reads the object back byte-identically, in its thread (a read in which the store
+//     failed a call may fail; its retry is judged like any read) and at the end (fault-free);
+//   - an operation in which the store did not fail any call fails only in the documented way
+//     (attach: origin-marker corruption error; Remove, creation, read of a holder: never).
+//
+// An operation that reported an error may leave garbage behind: a marker of a non-holder / the
+// object without holders is accepted at the end only if the last creation/attach/Remove of that
+// provider (for the object: of some provider) reported an error.
 func judge(hh vsched.Harness, x *vsched.Exec) (outcome, class, desc string) {
 	s := hh.(*h)
 	if ctx != nil && s.torn {
 		il := s.interleaving()
-		ctx.State(vlib.Hash("interleaving", s.sc.threads, s.sc.pre, il))
+		ctx.State(vlib.Hash("interleaving", s.sc.threads, s.sc.pre, s.sc.faults, il))
 		if os.Getenv("C41_DUMPLOGS") != "" {
 			fmt.Printf("LOG %v %s\n", x.Choices, il)
 		}
@@ -509,17 +742,29 @@ func judge(hh vsched.Harness, x *vsched.Exec) (outcome, class, desc string) {
 	fail := func(cl, d string) (string, string, string) {
 		return cl, cl, d + " | log: " + s.renderLog()
 	}
+	obj := s.objName()
+	ref := func(i int) string { return refNameOf(obj, i) }
 	// Step-by-step pass over the log with a shadow of the store.
 	shadow := map[string]bool{}
-	holder := map[int]bool{0: true}
-	for _, i := range s.sc.pre {
-		holder[i] = true
+	holder := map[int]bool{}
+	if !s.sc.faults {
+		holder[0] = true
+		for _, i := range s.sc.pre {
+			holder[i] = true
+		}
 	}
 	deletedBy := -1
 	// A reference is given up by calling Remove. The code between that call and Remove's first
 	// storage call is local to the provider, so an equivalent execution has the call immediately
 	// before that storage call: the provider counts as a holder until then.
 	releasing := map[int]bool{}
+	faultIn := map[int]bool{}    // the store failed a call of the provider's current operation
+	lastErr := map[int]bool{}    // the provider's last creation/attach/Remove reported an error
+	attachNo := map[int]int{}    // index of the provider's next attach result
+	removeNo := map[int]int{}    // ... Remove result
+	readNo := map[int]int{}      // ... read result
+	attached := map[int]string{} // outcome rendering
+	var faults []string
 	for k, e := range s.core.log {
 		exists := shadow[e.Name]
 		bad := false
@@ -527,21 +772,32 @@ func judge(hh vsched.Harness, x *vsched.Exec) (outcome, class, desc string) {
 			delete(releasing, e.Prov)
 			delete(holder, e.Prov)
 		}
+		if e.Inj != 0 {
+			faultIn[e.Prov] = true
+			f := e.Op
+			if e.Inj == 2 {
+				f += "*"
+			}
+			faults = append(faults, f)
+		}
+		applied := e.OK || e.Inj == 2
 		switch e.Op {
-		case "create":
+		case "create", "write":
+			bad = e.Inj == 0 && !e.OK
 		case "put":
-			if e.OK {
+			if applied {
 				shadow[e.Name] = true
 			}
 		case "delete":
-			if e.OK {
-				if e.Name == s.objName && exists {
+			if applied {
+				if e.Name == obj && exists {
 					deletedBy = e.Prov
 				}
 				delete(shadow, e.Name)
 			}
+			bad = e.Inj == 0 && !e.OK
 		case "size", "open", "readat":
-			bad = e.OK != exists
+			bad = e.Inj == 0 && e.OK != exists
 		case "list":
 			n := 0
 			for name := range shadow {
@@ -549,26 +805,69 @@ func judge(hh vsched.Harness, x *vsched.Exec) (outcome, class, desc string) {
 					n++
 				}
 			}
-			bad = !e.OK || n != e.N
-		case "attach-ret":
+			bad = e.Inj == 0 && (!e.OK || n != e.N)
+		case "create-call", "attach-call", "read-call":
+			faultIn[e.Prov] = false
+		case "remove-call", "cleanup-call":
+			faultIn[e.Prov] = false
+			releasing[e.Prov] = true
+		case "create-ret":
+			lastErr[e.Prov] = !e.OK
 			if e.OK {
 				holder[e.Prov] = true
-				if !shadow[s.objName] {
+				if !shadow[obj] {
+					return fail("create-succeeded-without-object", fmt.Sprintf("step %d: the creation by P%d (Create, Write, Finish) reported success but the object is not in the store", k, e.Prov+1))
+				}
+				if !shadow[ref(e.Prov)] {
+					return fail("create-without-ref-marker", fmt.Sprintf("step %d: the creation by P%d reported success but its ref marker %s does not exist", k, e.Prov+1, ref(e.Prov)))
+				}
+			} else if !faultIn[e.Prov] {
+				return fail("unexpected-create-error", fmt.Sprintf("step %d: the creation by P%d failed although the store did not fail any of its calls: %v", k, e.Prov+1, s.res[e.Prov].CreateErr))
+			}
+		case "cleanup-ret":
+			// Remove after a failed creation: any answer is acceptable (the provider may or may not
+			// know the object any more)
+		case "attach-ret":
+			lastErr[e.Prov] = !e.OK
+			err := s.res[e.Prov].AttachErrs[attachNo[e.Prov]]
+			attachNo[e.Prov]++
+			if (err == nil) != e.OK {
+				return fail("harness-log-inconsistent", fmt.Sprintf("step %d: attach result mismatch", k))
+			}
+			if e.OK {
+				holder[e.Prov] = true
+				attached[e.Prov] = "attached"
+				if attachNo[e.Prov] > 1 {
+					attached[e.Prov] = "attached-on-retry"
+				}
+				if !shadow[obj] {
 					return fail("attach-succeeded-on-deleted-object", fmt.Sprintf("step %d: AttachRemoteObjects of P%d returned nil but the object is already deleted", k, e.Prov+1))
 				}
-				if !shadow[s.refName(e.Prov)] {
-					return fail("attach-without-ref-marker", fmt.Sprintf("step %d: AttachRemoteObjects of P%d returned nil but its ref marker %s does not exist", k, e.Prov+1, s.refName(e.Prov)))
+				if !shadow[ref(e.Prov)] {
+					return fail("attach-without-ref-marker", fmt.Sprintf("step %d: AttachRemoteObjects of P%d returned nil but its ref marker %s does not exist", k, e.Prov+1, ref(e.Prov)))
+				}
+			} else {
+				switch {
+				case isOriginMarkerRefusal(err):
+					attached[e.Prov] = "refused"
+				case faultIn[e.Prov]:
+					attached[e.Prov] = "failed"
+				default:
+					return fail("unexpected-attach-error", fmt.Sprintf("step %d: AttachRemoteObjects of P%d failed with something else than the origin-marker error although the store did not fail any of its calls: %v", k, e.Prov+1, err))
 				}
 			}
-		case "remove-call":
-			releasing[e.Prov] = true
 		case "remove-ret":
-			if !e.OK {
-				return fail("unexpected-remove-error", fmt.Sprintf("step %d: Remove of P%d failed on an infallible store: %v", k, e.Prov+1, s.res[e.Prov].RemoveErr))
+			lastErr[e.Prov] = !e.OK
+			err := s.res[e.Prov].RemoveErrs[removeNo[e.Prov]]
+			removeNo[e.Prov]++
+			if !e.OK && !faultIn[e.Prov] {
+				return fail("unexpected-remove-error", fmt.Sprintf("step %d: Remove of P%d failed although the store did not fail any of its calls: %v", k, e.Prov+1, err))
 			}
 		case "read-ret":
-			if !e.OK {
-				return fail("held-object-unreadable", fmt.Sprintf("step %d: P%d holds a reference but could not read the object back: %s", k, e.Prov+1, s.res[e.Prov].ReadErr))
+			msg := s.res[e.Prov].ReadErrs[readNo[e.Prov]]
+			readNo[e.Prov]++
+			if !e.OK && !faultIn[e.Prov] {
+				return fail("held-object-unreadable", fmt.Sprintf("step %d: P%d holds a reference but could not read the object back although the store did not fail any call of the read: %s", k, e.Prov+1, msg))
 			}
 		default:
 			bad = true
@@ -576,7 +875,7 @@ func judge(hh vsched.Harness, x *vsched.Exec) (outcome, class, desc string) {
 		if bad {
 			return fail("harness-log-inconsistent", fmt.Sprintf("step %d (%s) is inconsistent with the shadow store: the log order is not the execution order", k, e))
 		}
-		if k >= s.setupLen && len(holder) > 0 && !shadow[s.objName] {
+		if k >= s.setupLen && len(holder) > 0 && !shadow[obj] {
 			var hs []string
 			for i := range holder {
 				hs = append(hs, fmt.Sprintf("P%d", i+1))
@@ -585,22 +884,30 @@ func judge(hh vsched.Harness, x *vsched.Exec) (outcome, class, desc string) {
 			return fail("deleted-while-referenced", fmt.Sprintf("step %d (%s): the object is gone while %v hold(s) an unreleased reference", k, e, hs))
 		}
 	}
-	// Attach results.
+	// Every thread that was started ran to its end (threads spawned by a managed thread are not
+	// covered by the scheduler's deadlock detection).
+	if s.prologueStop == "" {
+		for i, st := range s.sc.threads {
+			if len(st) > 0 && !s.res[i].Done {
+				return fail("thread-did-not-finish", fmt.Sprintf("the thread of P%d did not run to its end", i+1))
+			}
+		}
+	}
+	// A failed attach leaves no metadata behind.
 	var parts []string
-	for i, r := range s.res {
-		if !r.Attached {
+	if s.prologueStop != "" {
+		parts = append(parts, s.prologueStop)
+	}
+	for i := range s.res {
+		st, ok := attached[i]
+		if !ok {
 			continue
 		}
-		if r.AttachErr == nil {
-			parts = append(parts, fmt.Sprintf("P%d:attached", i+1))
-			continue
-		}
-		parts = append(parts, fmt.Sprintf("P%d:refused", i+1))
-		if !base.IsCorruptionError(r.AttachErr) || !strings.Contains(r.AttachErr.Error(), "origin marker object") {
-			return fail("unexpected-attach-error", fmt.Sprintf("P%d: AttachRemoteObjects failed with something else than the origin-marker error: %v", i+1, r.AttachErr))
-		}
-		if _, err := s.provs[i].Lookup(base.FileTypeTable, fileNumOf(i)); err == nil {
-			return fail("failed-attach-left-metadata", fmt.Sprintf("P%d knows the object after a failed attach", i+1))
+		parts = append(parts, fmt.Sprintf("P%d:%s", i+1, st))
+		if st == "refused" || st == "failed" {
+			if _, err := s.provs[i].Lookup(base.FileTypeTable, fileNumOf(i)); err == nil {
+				return fail("failed-attach-left-metadata", fmt.Sprintf("P%d knows the object after a failed attach", i+1))
+			}
 		}
 	}
 	// Final state.
@@ -616,25 +923,37 @@ func judge(hh vsched.Harness, x *vsched.Exec) (outcome, class, desc string) {
 			return fail("harness-log-inconsistent", fmt.Sprintf("final store %v differs from the shadow", s.final))
 		}
 	}
-	objExists := final[s.objName]
-	if objExists {
+	anyErr := false
+	for _, v := range lastErr {
+		anyErr = anyErr || v
+	}
+	objExists := obj != "" && final[obj]
+	switch {
+	case objExists && len(holder) > 0:
 		parts = append(parts, "object=kept")
-	} else {
+	case objExists:
+		parts = append(parts, "object=leaked")
+	case deletedBy >= 0:
 		parts = append(parts, fmt.Sprintf("object=deleted-by-P%d", deletedBy+1))
+	default:
+		parts = append(parts, "object=never-created")
+	}
+	if len(faults) > 0 {
+		parts = append(parts, "store-failed="+strings.Join(faults, ","))
 	}
 	outcome = strings.Join(parts, " ")
-	if objExists && len(holder) == 0 {
-		return fail("object-leaked", "no provider holds a reference at the end but the object still exists")
+	if objExists && len(holder) == 0 && !anyErr {
+		return fail("object-leaked", "no provider holds a reference at the end and every creation/attach/Remove reported success last, but the object still exists")
 	}
 	if !objExists && len(holder) > 0 {
 		return fail("deleted-while-referenced", "the object is gone at the end although a holder remains")
 	}
-	known := map[string]bool{s.objName: true}
+	known := map[string]bool{obj: true}
 	for i := 0; i < s.sc.nprov; i++ {
-		m := s.refName(i)
+		m := ref(i)
 		known[m] = true
-		if final[m] && !holder[i] {
-			return fail("stray-ref-marker", fmt.Sprintf("ref marker %s of P%d remains although P%d holds no reference", m, i+1, i+1))
+		if final[m] && !holder[i] && !lastErr[i] {
+			return fail("stray-ref-marker", fmt.Sprintf("ref marker %s of P%d remains although P%d holds no reference and its last creation/attach/Remove reported success", m, i+1, i+1))
 		}
 		if !final[m] && holder[i] {
 			return fail("holder-without-ref-marker", fmt.Sprintf("P%d holds a reference but its marker %s is gone", i+1, m))
@@ -647,11 +966,16 @@ func judge(hh vsched.Harness, x *vsched.Exec) (outcome, class, desc string) {
 	}
 	for i := 0; i < s.sc.nprov; i++ {
 		msg, knows := s.finalRead[i]
-		if holder[i] != knows {
-			return fail("provider-metadata-mismatch", fmt.Sprintf("P%d: holder=%v but Lookup succeeded=%v", i+1, holder[i], knows))
+		if holder[i] && !knows {
+			return fail("provider-metadata-mismatch", fmt.Sprintf("P%d holds a reference but does not know the object (Lookup failed)", i+1))
+		}
+		// a provider keeps the object in its list after a failed Remove (documented: to allow a retry)
+		// and may keep it after a failed creation (Writable.Finish: the caller removes it)
+		if knows && !holder[i] && !lastErr[i] {
+			return fail("provider-metadata-mismatch", fmt.Sprintf("P%d holds no reference and its last operation reported success, but it still knows the object", i+1))
 		}
 		if holder[i] && msg != "" {
-			return fail("held-object-unreadable", fmt.Sprintf("P%d holds a reference at the end but cannot read the object back: %s", i+1, msg))
+			return fail("held-object-unreadable", fmt.Sprintf("P%d holds a reference at the end but cannot read the object back from a store that does not fail: %s", i+1, msg))
 		}
 	}
 	for i, err := range s.closeErr {
@@ -665,6 +989,7 @@ func judge(hh vsched.Harness, x *vsched.Exec) (outcome, class, desc string) {
 type plan struct {
 	sc                  scen
 	quick, thorough     int // preemption bounds (storage-level mode: 0 = all interleavings)
+	qenv, tenv          int // injected store failures per execution (fault scenarios)
 	weight              float64
 	quickTier, thorTier bool
 }
@@ -679,7 +1004,7 @@ func plans() []plan {
 	s4 := [][]step{{X}, {A(0), R, X}}
 	// S2: two attachers.
 	s2 := [][]step{{X}, {A(0), R}, {A(0), R}}
-	// S3: P2 attached in Setup; P3 attaches from P2's backing while P2 and P1 remove.
+	// S3: P2 attached before; P3 attaches from P2's backing while P2 and P1 remove.
 	s3 := [][]step{{X}, {X}, {A(1), R}}
 	// S5: S2 with attachers that remove again: the last of three must delete.
 	s5 := [][]step{{X}, {A(0), X}, {A(0), X}}
@@ -689,14 +1014,33 @@ func plans() []plan {
 	s6 := [][]step{{X}, {X}, {A(1), R, X}}
 	// S7: as S3, but P3 attaches from the creator's backing while the earlier attacher P2 removes too.
 	s7 := [][]step{{X}, {X}, {A(0), R}}
+	// S0: the creator keeps its reference and reads while P2 attaches, reads and removes again (the
+	// object must survive everything P2 does or fails to do).
+	s0 := [][]step{{R}, {A(0), R, X}}
 	g := func(name string, nprov int, pre []int, th [][]step, w float64, quick bool) plan {
 		return plan{sc: scen{name: name, nprov: nprov, pre: pre, threads: th, gated: true}, weight: w, quickTier: quick, thorTier: true}
 	}
 	f := func(name string, nprov int, pre []int, th [][]step, q, t int, w float64) plan {
 		return plan{sc: scen{name: name, nprov: nprov, pre: pre, threads: th}, quick: q, thorough: t, weight: w, quickTier: true, thorTier: true}
 	}
+	// Fault scenarios. "<shape>-fault": quick tier, env failures without effect per execution;
+	// "<shape>-faultx": thorough tier, env failures per execution, Delete and writer Close may also
+	// fail after taking effect. The two variants have different names because the set of answers of a
+	// Choose differs (a replay finds its variant by name, whatever the tier).
+	gf := func(name string, nprov int, pre []int, th [][]step, env int, w float64) []plan {
+		return []plan{
+			{sc: scen{name: name + "-fault", nprov: nprov, pre: pre, threads: th, gated: true, faults: true}, qenv: 1, tenv: 1, weight: w, quickTier: w > 0},
+			{sc: scen{name: name + "-faultx", nprov: nprov, pre: pre, threads: th, gated: true, faults: true, ambig: true}, qenv: env, tenv: env, weight: 3 * w * float64(env*env), thorTier: true},
+		}
+	}
+	ff := func(name string, nprov int, pre []int, th [][]step, q, t int, w float64) []plan {
+		return []plan{
+			{sc: scen{name: name + "-full-fault", nprov: nprov, pre: pre, threads: th, faults: true}, quick: q, thorough: q, qenv: 1, tenv: 1, weight: w, quickTier: true},
+			{sc: scen{name: name + "-full-faultx", nprov: nprov, pre: pre, threads: th, faults: true, ambig: true}, quick: t, thorough: t, qenv: 1, tenv: 1, weight: 3 * w, thorTier: true},
+		}
+	}
 	p2 := []int{1}
-	return []plan{
+	ps := []plan{
 		// storage-level mode: every interleaving of the storage calls (bound 0 is already unbounded)
 		g("S1-all", 2, nil, s1, 0.2, true),
 		g("S4-all", 2, nil, s4, 0.2, true),
@@ -706,13 +1050,24 @@ func plans() []plan {
 		g("S5-all", 3, nil, s5, 5, false),
 		g("S6-all", 3, p2, s6, 3, false),
 		g("S5r-all", 3, nil, s5r, 14, false),
-		// full mode: every hooked mutex/atomic operation is a scheduling point as well
+	}
+	// storage-level mode with a failing store: all interleavings x a failure at every position
+	ps = append(ps, gf("S0", 2, nil, s0, 2, 0.3)...)
+	ps = append(ps, gf("S1", 2, nil, s1, 2, 0.5)...)
+	ps = append(ps, gf("S4", 2, nil, s4, 2, 1)...)
+	ps = append(ps, gf("S3", 3, p2, s3, 1, 4)...)
+	ps = append(ps, gf("S7", 3, p2, s7, 1, 4)...)
+	ps = append(ps, gf("S2", 3, nil, s2, 1, 0)...) // thorough only
+	// full mode: every hooked mutex/atomic operation is a scheduling point as well
+	ps = append(ps,
 		f("S1-full", 2, nil, s1, 2, 4, 0.5),
 		f("S4-full", 2, nil, s4, 2, 4, 0.5),
 		f("S3-full", 3, p2, s3, 1, 3, 2),
 		f("S2-full", 3, nil, s2, 1, 2, 1),
-		f("S5-full", 3, nil, s5, 1, 2, 1),
-	}
+		f("S5-full", 3, nil, s5, 1, 2, 1))
+	ps = append(ps, ff("S1", 2, nil, s1, 1, 2, 1)...)
+	ps = append(ps, ff("S4", 2, nil, s4, 1, 2, 1)...)
+	return ps
 }
 
 func TestCheck(t *testing.T) {
@@ -731,14 +1086,18 @@ func TestCheck(t *testing.T) {
 				fmt.Sscan(v, &p.quick)
 				p.thorough = p.quick
 			}
-			list = append(list, d1x.Scenario{Name: p.sc.name, QuickBound: p.quick, ThoroughBound: p.thorough, Weight: p.weight, Judge: judge,
+			if v := os.Getenv("C41_ENV"); v != "" && p.sc.faults { // experiments only
+				fmt.Sscan(v, &p.qenv)
+				p.tenv = p.qenv
+			}
+			list = append(list, d1x.Scenario{Name: p.sc.name, QuickBound: p.quick, ThoroughBound: p.thorough, QuickEnv: p.qenv, ThoroughEnv: p.tenv, Weight: p.weight, Judge: judge,
 				New: func() vsched.Harness { return &h{sc: p.sc, verbose: verbose} }})
 		}
 		var names []string
 		for _, sc := range list {
 			names = append(names, sc.Name)
 		}
-		c.Note("scope", fmt.Sprintf("scenarios run in this tier: %v. '-all' = storage-level mode: scheduling decisions only at storage calls (provider-local code runs as forced moves), every choice free, so the reported 'bound 0' is ALL interleavings of the storage calls; '-full' = every hooked mutex/atomic operation and every storage call is a scheduling point, all schedules up to the listed preemption bound. states = distinct storage-call interleavings (calls with their results, per scenario shape) + distinct outcomes.", names))
+		c.Note("scope", fmt.Sprintf("scenarios run in this tier: %v. '-all' = storage-level mode: scheduling decisions only at storage calls (provider-local code runs as forced moves), every choice free, so the reported 'bound 0' is ALL interleavings of the storage calls; '-fault' = the same with a failing store: every storage call of a managed thread asks the environment whether it fails, '(+k injected faults)' = every placement of at most k failures combined with all interleavings, the object is created and the earlier attaches are made by the first managed thread so that they can fail too; '-full' = every hooked mutex/atomic operation and every storage call is a scheduling point, all schedules up to the listed preemption bound ('-full-fault': plus the failures). states = distinct storage-call interleavings (calls with their results incl. injected failures, per scenario shape) + distinct outcomes.", names))
 		d1x.Run(t, c, list)
 	})
 }
